@@ -147,7 +147,7 @@ class _Mini:
         self.violations.append((what, path))
 
 
-def _identity(run, name, lhs, rhs, timeout=300):
+def _identity(run, name, lhs, rhs, timeout=1500):
     """decide a rational-function identity: both sides brought to fractions, the cross-multiplied polynomial must vanish identically"""
     n1, d1 = ratfun.frac(lhs)
     n2, d2 = ratfun.frac(rhs)
@@ -168,12 +168,18 @@ def _identity(run, name, lhs, rhs, timeout=300):
     t = time.time()
     verdicts = {}
     procs = {}
-    for sn in ('z3-4.8.12', 'z3-5.1.0'):
+
+    def start(sn):
         pr = subprocess.Popen(engine.SOLVERS[sn](int(timeout)), stdin=subprocess.PIPE, stdout=subprocess.PIPE, stderr=subprocess.STDOUT, text=True)
         pr.stdin.write(smt2)
         pr.stdin.close()
         procs[sn] = pr
+    start('z3-4.8.12')          # decides these identities in about 10 s when the machine is idle
+    backup_started = False
     while procs and time.time() - t < timeout + 5:
+        if not backup_started and time.time() - t > 90:
+            backup_started = True
+            start('z3-5.1.0')   # second opinion only when the first solver is slow (a loaded machine, or an identity it finds hard)
         for sn, pr in list(procs.items()):
             if pr.poll() is not None:
                 out = pr.stdout.read().strip()
